@@ -4,6 +4,7 @@ Oracle: linear-scan definitions written from the statement (leftmost equal / rig
 rightmost not-above / leftmost above / leftmost not-below, None when there is none).
 Exhaustive core: all sorted lists of length 0-7 over a 5-value domain x 11 probes x 5 helpers.
 Long lists: 0..N-1 with a run of 1-5 equal values at every position, for lengths around powers of two (size-dependent strategies).
+Every generated list is probed again after being edited in place (same object, same length).
 Generated part: Hypothesis lists of floats (+-inf, +-0.0, duplicates, up to 200 long; thorough: also
 ints beyond 2**53 and strings) with probes taken from the list, one ulp beside it, or anywhere.
 Thorough tier: crosshair (contract-directed input search with z3) runs the contracts of tfverif/contracts_c18.py as a second generator.
@@ -204,6 +205,25 @@ def run_shard(spec, ctx):
             if nt:
                 acc.nt([name, lst, x])
         acc.cls("dup_probe" if lst.count(x) > 1 else "probe_present" if x in lst else "probe_absent")
+        # the helpers are functions of the list's CONTENTS: the same list object, edited in place without a change of length
+        # (an index does that when it replaces or renumbers entries), is probed again with the same value
+        if len(lst) >= 2 and not isinstance(lst[0], str):
+            orig = list(lst)
+            try:
+                i = (len(lst) * 7 + lst.count(x)) % len(lst)
+                lst[i] = lst[i - 1] if i > 0 else lst[1]  # copying a neighbour keeps the list sorted
+                for name in HELPERS:
+                    check_one(fns, name, lst, x)
+                    acc.ev()
+                tail = lst.pop()
+                lst.append(tail if x != tail else lst[-1] if lst else tail)
+                for name in HELPERS:
+                    check_one(fns, name, lst, x)
+                    acc.ev()
+            except Violation as v:
+                v.case = dict(v.case, before=orig)  # the replay probes `before` first and then edits that same object
+                raise
+            acc.cls("reprobed_after_in_place_edit")
         acc.cls("len>=128" if len(lst) >= 128 else "len>=8" if len(lst) >= 8 else "len<8")
         if len(lst) <= 6:
             acc.sample({"list": lst, "x": x, "answers": {n: ref(n, lst, x) for n in HELPERS}})
@@ -214,7 +234,16 @@ def run_shard(spec, ctx):
 
 
 def replay(sub, case, ctx):
-    check_one(helpers(), case["helper"], case["list"], case["x"])
+    fns = helpers()
+    if case.get("before") is not None and len(case["before"]) == len(case["list"]):
+        lst = list(case["before"])
+        for name in HELPERS:
+            check_one(fns, name, lst, case["x"])
+        lst[:] = case["list"]  # in place: same object, same length
+        for name in HELPERS:
+            check_one(fns, name, lst, case["x"])
+        return
+    check_one(fns, case["helper"], case["list"], case["x"])
 
 
 def finish(merged, tier):
